@@ -186,14 +186,14 @@ class C10(BaseCheck):
         kinds = ['meta_set', 'meta_append', 'meta_extend', 'meta_add_item', 'meta_update', 'meta_setdefault',
                  'col_meta_set', 'col_meta_append', 'col_meta_extend', 'col_assign',
                  'append', 'insert', 'extend', 'iadd', 'setitem', 'row_poke', 'col_poke', 'derive', 'extend_grid', 'add_column',
-                 'col_from_grid']
+                 'col_from_grid', 'meta_clear', 'col_meta_clear']
         enabled = [x for x in kinds if k.random() < 0.7] or ['append']
         n = k.choice([2, 3, 4, 6, 8, 12]) if tier == 'quick' else k.choice([3, 6, 12, 20, 30])
         ops = []
         for j in range(n):
             op = r.choice(enabled)
             o = {'op': op}
-            if op.startswith('meta_'):
+            if op.startswith('meta_') and op != 'meta_clear':
                 o['k'] = 'm%d' % r.randrange(4)
                 if op in ('meta_extend', 'meta_update'):
                     o['pairs'] = [['m%d' % r.randrange(4), gen_value(r, p_v3)] for _ in range(r.choice([1, 2]))]
@@ -201,7 +201,7 @@ class C10(BaseCheck):
                     o['v'] = gen_value(r, p_v3)
                 if op == 'meta_add_item':
                     o['index'] = r.randrange(3)
-            elif op.startswith('col_') and op != 'col_from_grid':
+            elif op.startswith('col_') and op not in ('col_from_grid', 'col_meta_clear'):
                 o['c'] = r.choice(COLS)
                 if op in ('col_meta_extend', 'col_assign'):
                     o['pairs'] = [['c%d' % r.randrange(3), gen_value(r, p_v3)] for _ in range(r.choice([1, 2]))]
@@ -219,6 +219,8 @@ class C10(BaseCheck):
                 o['src_ver'] = r.choice(['3.0', '3.0', None, '4.0'])
                 o['pairs'] = [['c%d' % r.randrange(3), gen_value(r, 0.6)] for _ in range(r.choice([1, 2]))]
                 o['how'] = r.choice(['setitem', 'add_item', 'update'])
+            elif op == 'col_meta_clear':
+                o['c'] = r.choice(COLS)
             elif op == 'add_column':
                 o['c'] = 'x'
                 o['pairs'] = [['c0', gen_value(r, p_v3 / 2)]] if r.random() < 0.3 else []
@@ -379,9 +381,9 @@ class C10(BaseCheck):
                     if o['k'] in g.metadata:
                         v3 = False
                     g.metadata.setdefault(o['k'], mkv(hs, o['v']))
-                elif op.startswith('col_meta_') and not hasattr(g.column[o['c']], 'add_item'):
+                elif op.startswith('col_meta_') and op != 'col_meta_clear' and not hasattr(g.column[o['c']], 'add_item'):
                     skipped = True    # the column holds a plain dict (col_assign): stores into it bypass the grid by construction
-                elif op.startswith('col_meta_') and o['c'] in foreign_cols:
+                elif op.startswith('col_meta_') and op != 'col_meta_clear' and o['c'] in foreign_cols:
                     # this column's metadata OBJECT was taken from another grid and is still shared with it: a store
                     # through it is checked against that other grid (one object, one validator).  Like an in-place
                     # row edit, this grid cannot see it; only the writers are judged afterwards.
@@ -429,6 +431,13 @@ class C10(BaseCheck):
                     g.extend([{c: mkv(hs, s) for c, s in rw.items()} for rw in o['rows']])
                 elif op == 'iadd':
                     g += [{c: mkv(hs, s) for c, s in rw.items()} for rw in o['rows']]
+                elif op == 'meta_clear':
+                    g.metadata.clear()               # emptied, not replaced: what is stored next is still subject to the version
+                elif op == 'col_meta_clear':
+                    if hasattr(g.column[o['c']], 'clear'):
+                        g.column[o['c']].clear()
+                    else:
+                        skipped = True
                 elif op == 'col_from_grid':
                     try:
                         src = hs.Grid(version=o.get('src_ver'), columns=[(o['c'], [(k_, mkv(hs, s_)) for k_, s_ in o['pairs']])])
